@@ -24,6 +24,7 @@ program!(c09_delta_e_lab, "C09", "quick", sv,
     let tol = T::tol(1e-9, 1e-3);
     let sq = (l1 - l2) * (l1 - l2) + (a1 - a2) * (a1 - a2) + (b1 - b2) * (b1 - b2);
     let de = x.delta_e(y);
+    T::output("delta_e", &de);
     T::ensure("delta_e.nonneg", T::p_le(&T::k(0.0), &de));
     T::ensure("delta_e.closed_form_squared", abs_le(de * de, sq, T::tol(1e-6, 1e-1)));
     T::ensure("delta_e.symmetric", abs_le(de, y.delta_e(x), tol));
@@ -32,6 +33,7 @@ program!(c09_delta_e_lab, "C09", "quick", sv,
     T::ensure("distance_squared.symmetric", abs_le(x.distance_squared(y), y.distance_squared(x), T::tol(1e-6, 1e-1)));
     T::ensure("distance.nonneg", T::p_le(&T::k(0.0), &x.distance(y)));
     let hy = x.hybrid_distance(y);
+    T::output("hyab", &hy);
     let dl = l1 - l2;
     let adl = T::ite(&T::p_le(&T::k(0.0), &dl), dl, -dl);
     let ch = hy - adl;
@@ -41,6 +43,7 @@ program!(c09_delta_e_lab, "C09", "quick", sv,
     T::ensure("hyab.zero_on_identical", abs_le(x.hybrid_distance(x), T::k(0.0), tol));
     // improved delta E: 1.26 * dE^0.55 (same power application as the spec written here)
     let imp = x.improved_delta_e(y);
+    T::output("improved", &imp);
     T::ensure("improved_delta_e.closed_form", abs_le(imp, T::k(1.26) * palette::num::Powf::powf(sq, T::k(0.55 * 0.5)), tol));
     T::ensure("improved_delta_e.nonneg", T::p_le(&T::k(0.0), &imp));
     T::ensure("improved_delta_e.symmetric", abs_le(imp, y.improved_delta_e(x), tol));
@@ -100,6 +103,7 @@ program!(c09_wcag, "C09", "quick", sv,
     let b: LinLuma<T> = LinLuma::new(y2);
     let tol = T::tol(1e-12, 1e-5);
     let r = a.relative_contrast(b);
+    T::output("ratio", &r);
     let hi = T::ite(&T::p_le(&y1, &y2), y2, y1);
     let lo = T::ite(&T::p_le(&y1, &y2), y1, y2);
     T::ensure("ratio.closed_form", abs_le(r * (T::k(0.05) + lo), T::k(0.05) + hi, tol));
